@@ -172,6 +172,22 @@ def fresh_views(ctx, rule):
         for sh, site, _ in q.def_shapes(b, 0, {}):
             via = [f for f in src_of if sh.startswith(q.nice(f) + "(")]
             ctx.check(sh.startswith("SourceView{") or bool(via), rule, b.path, "fresh-maker", "the returned view is a fresh literal or comes from a constructor that builds one", ctx.site(b, *site), detail=sh[:160])
+    # ... and a view is never re-pointed or reset in place: no function stores into a field of an existing SourceView, and
+    # none reaches the protected state through the exclusive-access back doors (get_mut / into_inner) that bypass the
+    # lock discipline the other rules establish (a `clone_from` that swaps the text under a stale counter, say)
+    stores, doors = [], []
+    for b in ctx.facts.local_fns():
+        for bi, si, st, it in b.locations():
+            if it:
+                if st.get("k") == "call" and q.nice(st.get("callee")) in ("Mutex::get_mut", "Mutex::into_inner", "Atomic::get_mut", "Atomic::into_inner", "AtomicUsize::get_mut", "AtomicUsize::into_inner"):
+                    a0 = q.shape(q.arg_expr(b, st, 0))
+                    if a0.endswith(".lines") or a0.endswith(".processed_until"):
+                        doors.append("%s: %s" % (b.path, q.shape(b.expr_of_call(st))[:80]))
+                continue
+            if st["k"] == "assign" and st["place"]["p"] and st["place"]["p"][-1].get("k") == "field" and st["place"]["p"][-1].get("adt") == "sourceview::SourceView":
+                stores.append("%s: .%s" % (b.path, st["place"]["p"][-1].get("n")))
+    ctx.check(not stores and not doors, rule, "sourceview", "no-in-place-reset", "no field of an existing SourceView is overwritten and the lock-protected state is not reached through get_mut/into_inner",
+              detail=str(stores + doors)[:300])
     cl = ctx.body("<sourceview::SourceView as core::clone::Clone>::clone")
     rets = [sh for sh, _, _ in q.def_shapes(cl, 0, {})]
     ok = len(rets) == 1 and (q.wild("SourceView{source:arg1.source,*", rets[0]) or any(rets[0] == "%s(arg1.source)" % q.nice(f) and src_of[f] == ["arg1"] for f in src_of))
